@@ -302,6 +302,8 @@ fn pump(kind: &str, n: usize) -> Option<String> {
         "long-sum" => format!("2024/01/01 x\n  A  (1 USD{})\n  B\n", rep(" + 1 USD", n)),
         "long-sum-of-parenthesised-operands" => format!("2024/01/01 x\n  A  (1 USD{})\n  B\n", rep(" + (1 USD)", n)),
         "long-product-of-negated-operands" => format!("2024/01/01 x\n  A  (1 USD{})\n  B\n", rep(" * -(1)", n)),
+        "run-of-minus-signs" => format!("2024/01/01 x\n  A  ({}1 USD)\n  B\n", rep("-", n)),
+        "run-of-minus-signs-in-operand" => format!("2024/01/01 x\n  A  (1 USD + {}1 USD)\n  B\n", rep("-", n)),
         "long-sum-in-assertion" => format!("2024/01/01 x\n  A  1 USD = (1 USD{})\n  B\n", rep(" - (0 USD)", n)),
         "many-commodities-in-one-amount" => {
             let mut s = String::from("2024/01/01 x\n  A  (1 C0");
@@ -355,8 +357,8 @@ fn letters(mut i: usize) -> String {
     s
 }
 
-const PUMP_KINDS: [&str; 22] = [
-    "nested-parens-amount", "nested-parens-cost", "nested-parens-assertion", "unary-minus-chain", "long-sum", "long-sum-of-parenthesised-operands", "long-product-of-negated-operands", "long-sum-in-assertion", "many-commodities-in-one-amount", "many-postings", "many-transactions", "many-metadata-lines", "many-blank-lines", "many-comment-lines", "long-account-name", "long-payee", "long-commodity", "literal-digits", "literal-fraction-digits", "many-accounts", "many-aliases", "big-product",
+const PUMP_KINDS: [&str; 24] = [
+    "nested-parens-amount", "nested-parens-cost", "nested-parens-assertion", "unary-minus-chain", "run-of-minus-signs", "run-of-minus-signs-in-operand", "long-sum", "long-sum-of-parenthesised-operands", "long-product-of-negated-operands", "long-sum-in-assertion", "many-commodities-in-one-amount", "many-postings", "many-transactions", "many-metadata-lines", "many-blank-lines", "many-comment-lines", "long-account-name", "long-payee", "long-commodity", "literal-digits", "literal-fraction-digits", "many-accounts", "many-aliases", "big-product",
 ];
 
 fn judge_binary(kind: &str, e_len: usize) -> Option<Outcome> {
@@ -607,7 +609,7 @@ fn run(ctx: &mut Ctx) {
     // ---------------- family 4: pumping through the real binary
     let sizes: &[usize] = ctx.tier.pick(&[1usize, 10, 100, 1000, 10000][..], &[1usize, 10, 100, 1000, 10000, 100000][..]);
     for kind in PUMP_KINDS {
-        let expression_shaped = kind.starts_with("nested-parens") || (kind.starts_with("long-") && !matches!(kind, "long-account-name" | "long-payee" | "long-commodity")) || kind == "unary-minus-chain";
+        let expression_shaped = kind.starts_with("nested-parens") || (kind.starts_with("long-") && !matches!(kind, "long-account-name" | "long-payee" | "long-commodity")) || kind == "unary-minus-chain" || kind.starts_with("run-of-minus");
         let deep: &[usize] = ctx.tier.pick(&[1usize, 10, 100, 1000, 10000, 100000][..], &[1usize, 10, 100, 1000, 10000, 100000, 1000000][..]);
         for &n in if expression_shaped { deep } else { sizes } {
             if !ctx.next_is_mine() {
@@ -664,6 +666,30 @@ fn run(ctx: &mut Ctx) {
                 r
             },
         );
+    }
+    // ---------------- column arithmetic of the formatter: every account width 1..=70 x number shapes x posting shapes
+    // through parse / format / process (the padding is computed by subtraction: it must never go below zero)
+    {
+        let numbers = ["1", "1000", "-1,234.56", "1234567890", "0.001"];
+        for w in 1..=70usize {
+            let name = if w <= 2 { "Ab"[..w].to_string() } else { format!("A:{}", "b".repeat(w - 2)) };
+            for num in numbers {
+                for shape in 0..4 {
+                    if !ctx.next_is_mine() {
+                        ctx.skip_cases(1);
+                        continue;
+                    }
+                    let rest = match shape {
+                        0 => format!("  {} JPY", num),
+                        1 => "  = 0".to_string(),
+                        2 => format!("  = {} JPY", num),
+                        _ => format!("  {} JPY = {} JPY", num, num),
+                    };
+                    let text = format!("2024/01/01 p\n  {}{}\n  B\n", name, rest);
+                    ctx.case(|| format!("[formatter column arithmetic]\n{}", text), || exercise(&[(oka::ROOT, text.as_bytes())], oka::ROOT));
+                }
+            }
+        }
     }
     // ---------------- arithmetic on user-supplied zeros (in-process; C01's alphabet restricted to shapes with a zero)
     let alpha = super::c01::alphabet();
